@@ -19,8 +19,9 @@ class C02(MotionMonitor):
     assumptions = ["class three relies on reference printer B to confirm that no destination lies inside a region; "
                    "a case where B enters a region is a generator error and is discarded (counted)"]
     classes = [(3, "no-regions", {}), (3, "disabled-throughout", {}),
-               (4, "avoided", mk(arcs=True, rel=True, inch=True, avoid=True, p_inside=0.0, margin=0.05, g28mid=False, spell=True)),
-               (1, "avoided-firmware", mk(fw=True, arcs=True, avoid=True, p_inside=0.0, retmove=True))]
+               (4, "avoided", mk(arcs=True, arcs_rel=True, rel=True, inch=True, avoid=True, p_inside=0.0, margin=0.05, g28mid=False,
+                                 spell=True)),
+               (1, "avoided-firmware", mk(fw=True, arcs=True, arcs_rel=True, rel=True, avoid=True, p_inside=0.0, retmove=True))]
 
     def gen_case(self, rnd, tier, k):
         name, feats = self.pick_class(rnd)
